@@ -9,6 +9,7 @@ import Driver.Sm
 import Driver.Tm
 import Driver.Lm
 import Driver.Lk
+import Driver.Mi
 /-! `driver <suite>`: reads a transcript on stdin, prints the model's `obs` line for every `op` line. -/
 
 partial def loopSrv (h : IO.FS.Stream) (out : IO.FS.Stream) (st : Driver.Srv.St) : IO Unit := do
@@ -83,6 +84,15 @@ partial def loopLk (h : IO.FS.Stream) (out : IO.FS.Stream) (st : Driver.Lk.St) :
   | none => pure ()
   loopLk h out st'
 
+partial def loopMi (h : IO.FS.Stream) (out : IO.FS.Stream) (st : Driver.Mi.St) : IO Unit := do
+  let line ← h.getLine
+  if line.isEmpty then return ()
+  let (st', o) := Driver.Mi.handle st line
+  match o with
+  | some l => out.putStrLn l
+  | none => pure ()
+  loopMi h out st'
+
 partial def loopStateless (h : IO.FS.Stream) (out : IO.FS.Stream) (f : String → Option String) : IO Unit := do
   let line ← h.getLine
   if line.isEmpty then return ()
@@ -103,6 +113,7 @@ def main (args : List String) : IO UInt32 := do
   | ["links"] => loopLk stdin stdout {}; return 0
   | ["limits"] => loopLm stdin stdout { maxConn := 0, inflight := 0, conns := [] }; return 0
   | ["timers"] => loopTm stdin stdout {}; return 0
+  | ["micro"] => loopMi stdin stdout {}; return 0
   | ["s2m"] => loopStateless stdin stdout Driver.Sm.handle; return 0
   | ["codec"] => loopStateless stdin stdout Driver.Cd.handle; return 0
   | ["writer"] => loopStateless stdin stdout Driver.Wr.handle; return 0
